@@ -230,7 +230,8 @@ impl Default for GenCfg {
 
 pub const KEYS: [&str; 6] = ["a", "b", "c", "k", "a-b", "0"];
 /// property names that need quoting / escaping wherever beff prints them (JS object literals, schemas, describe())
-pub const ODD_KEYS: [&str; 4] = ["q\"t", "b\\s", "x y", "\u{e9}"];
+/// ... and declared property names that every object inherits from Object.prototype
+pub const ODD_KEYS: [&str; 7] = ["q\"t", "b\\s", "x y", "\u{e9}", "constructor", "toString", "prototype"];
 pub const STR_LITS: [&str; 5] = ["a", "b", "c", "a-b", ""];
 pub const NUM_LITS: [&str; 5] = ["0", "1", "2", "-1", "1.5"];
 /// literal chunks of template literal types: plain text first, then every regular-expression metacharacter
@@ -455,7 +456,7 @@ impl<'c> G<'c> {
             let vt = self.ty(s, depth - 1, n == 0);
             let mut props: Vec<Prop> = vec![];
             for _ in 0..n {
-                let key = if s.chance(1, 14) { s.pick(&ODD_KEYS).to_string() } else { s.pick(&KEYS).to_string() };
+                let key = if s.chance(1, 10) { s.pick(&ODD_KEYS).to_string() } else { s.pick(&KEYS).to_string() };
                 if props.iter().any(|p| p.key == key) {
                     continue;
                 }
@@ -470,7 +471,7 @@ impl<'c> G<'c> {
         let n = s.range(0, 4);
         let mut props: Vec<Prop> = vec![];
         for _ in 0..n {
-            let key = if s.chance(1, 14) { s.pick(&ODD_KEYS).to_string() } else { s.pick(&KEYS).to_string() };
+            let key = if s.chance(1, 10) { s.pick(&ODD_KEYS).to_string() } else { s.pick(&KEYS).to_string() };
             if props.iter().any(|p| p.key == key) {
                 continue;
             }
@@ -612,7 +613,7 @@ impl<'c> G<'c> {
             // string, so the object type is well-formed): the discriminated fast path must not lose it
             let indexed = self.cfg.index && s.chance(1, 7);
             for _ in 0..extra {
-                let key = if s.chance(1, 14) { s.pick(&ODD_KEYS).to_string() } else { s.pick(&KEYS).to_string() };
+                let key = if s.chance(1, 10) { s.pick(&ODD_KEYS).to_string() } else { s.pick(&KEYS).to_string() };
                 if key == tag || props.iter().any(|p| p.key == key) {
                     continue;
                 }
@@ -921,7 +922,7 @@ fn edit_type_here(d: &D, s: &mut Src, cfg: &GenCfg, env_size: usize) -> D {
                 D::Object { props: p2, index: index.clone() }
             }
             2 => {
-                let key = if s.chance(1, 14) { s.pick(&ODD_KEYS).to_string() } else { s.pick(&KEYS).to_string() };
+                let key = if s.chance(1, 10) { s.pick(&ODD_KEYS).to_string() } else { s.pick(&KEYS).to_string() };
                 let mut p2 = props.clone();
                 if !p2.iter().any(|p| p.key == key) {
                     let optional = s.chance(1, 2);
